@@ -666,3 +666,80 @@ Proof.
   pose proof (prev_end_bounds _ _ _ _ _ _ H Hin). pose proof (next_start_bounds _ _ _ _ _ _ H Hin).
   apply Z.leb_gt in Ea. apply ok_move; try assumption; lia.
 Qed.
+
+(* ---------------------------------------------------------------------------------------- *)
+(* the signals a size change of x by a actually moves in a layout l                          *)
+(* ---------------------------------------------------------------------------------------- *)
+
+(* growth: the followers the push reaches (those whose accumulated gap to x is smaller than the
+   amount) *)
+Fixpoint reached (len pos : handle -> Z) (fs : list handle) (prev acc : Z) : list handle :=
+  match fs with
+  | [] => []
+  | t :: r => let space := pos t - prev in
+              if acc <=? space then [] else t :: reached len pos r (pos t + len t) (acc - space)
+  end.
+
+(* shrinking pulls every follower; growth pushes the reached ones; no change moves nothing *)
+Definition moved_in (len pos : handle -> Z) (l : list handle) (x : handle) (a : Z) : list handle :=
+  if a =? 0 then []
+  else match followers l x with
+       | None => []
+       | Some fs => if 0 <? a then reached len pos fs (pos x + len x) a else fs
+       end.
+
+Lemma reached_incl : forall len pos fs prev acc y, In y (reached len pos fs prev acc) -> In y fs.
+Proof.
+  induction fs as [|t r IH]; intros prev acc y H; cbn [reached] in H; [contradiction|].
+  destruct (acc <=? pos t - prev); [contradiction|]. destruct H as [->|H]; [left; reflexivity|right; eapply IH; exact H].
+Qed.
+
+Lemma reached_ext : forall len len' pos pos' fs prev acc,
+  (forall t, In t fs -> pos' t = pos t /\ len' t = len t) ->
+  reached len' pos' fs prev acc = reached len pos fs prev acc.
+Proof.
+  induction fs as [|t r IH]; intros prev acc H; cbn [reached]; [reflexivity|].
+  destruct (H t (or_introl eq_refl)) as [-> ->]. destruct (acc <=? pos t - prev); [reflexivity|].
+  f_equal. apply IH. intros t' Ht'. apply H. right; exact Ht'.
+Qed.
+
+Lemma push_loop_frame_reached : forall len pos0 fs pos prev acc y,
+  ~ In y (reached len pos0 fs prev acc) -> push_loop len pos0 pos fs prev acc y = pos y.
+Proof.
+  induction fs as [|t r IH]; intros pos prev acc y Hn; cbn [push_loop reached] in *; [reflexivity|].
+  destruct (acc <=? pos0 t - prev); [reflexivity|].
+  rewrite IH by (intros Hin; apply Hn; right; exact Hin).
+  apply upd_other. intros ->. apply Hn. left; reflexivity.
+Qed.
+
+Lemma moved_in_In : forall len pos l x a y, In y (moved_in len pos l x a) -> In x l /\ In y l.
+Proof.
+  intros * H. unfold moved_in in H. destruct (a =? 0); [contradiction|].
+  destruct (followers l x) as [fs|] eqn:Hf; [|contradiction]. destruct (followers_In _ _ _ Hf) as [A B].
+  split; [exact A|]. apply B. destruct (0 <? a); [eapply reached_incl; exact H|exact H].
+Qed.
+
+Lemma moved_in_ext : forall len len' pos pos' l x a,
+  (forall t, In t l -> pos' t = pos t /\ len' t = len t) ->
+  moved_in len' pos' l x a = moved_in len pos l x a.
+Proof.
+  intros * H. unfold moved_in. destruct (a =? 0); [reflexivity|].
+  destruct (followers l x) as [fs|] eqn:Hf; [|reflexivity]. destruct (followers_In _ _ _ Hf) as [A B].
+  destruct (0 <? a); [|reflexivity]. destruct (H x A) as [-> ->]. apply reached_ext. intros t Ht. apply H. apply B. exact Ht.
+Qed.
+
+Lemma do_grow_frame_moved : forall pos len l size x a y, 0 < a ->
+  ~ In y (moved_in len pos l x a) -> snd (do_grow len pos size l x a) y = pos y.
+Proof.
+  intros * Ha Hn. unfold do_grow, moved_in in *. destruct (Z.eqb_spec a 0); [reflexivity|].
+  destruct (verify_grow len pos size l x a); [reflexivity|].
+  destruct (followers l x) as [fs|]; [|reflexivity]. cbn [snd].
+  destruct (Z.ltb_spec 0 a); [|lia]. apply push_loop_frame_reached. exact Hn.
+Qed.
+
+Lemma shrink_frame_moved : forall pos len l x a y, a < 0 ->
+  ~ In y (moved_in len pos l x a) -> shrink_loop pos l x (- a) false y = pos y.
+Proof.
+  intros * Ha Hn. apply shrink_loop_false_frame. intros fs Hf. unfold moved_in in Hn.
+  destruct (Z.eqb_spec a 0); [lia|]. rewrite Hf in Hn. destruct (Z.ltb_spec 0 a); [lia|exact Hn].
+Qed.
